@@ -69,6 +69,7 @@ public:
     bool fetchModel(const ImportSourcePtr &importSource, const std::string &baseFile);
     bool fetchImportSource(const ImportSourcePtr &importSource, const std::string &baseFile);
     bool fetchUnits(const UnitsPtr &importUnits, const std::string &baseFile, History &history);
+    bool fetchLocalUnitsChildren(const UnitsPtr &units, const std::string &baseFile, History &history, std::vector<UnitsPtr> &visited);
 
     bool checkForImportCycles(const ImportSourcePtr &importSource, const History &history, const HistoryEpochPtr &h, const std::string &action);
     bool checkUnitsForCycles(const UnitsPtr &units, History &history);
@@ -438,6 +439,22 @@ bool isErrorRelatedToComponent(const IssuePtr &error, const ComponentPtr &compon
     return false;
 }
 
+/**
+ * @brief Names of the units used by a component and by its encapsulated descendants that are defined, not imported.
+ */
+NameList unitsNamesUsedInHierarchy(const ComponentPtr &component)
+{
+    auto unitNames = unitsNamesUsed(component);
+    for (size_t c = 0; c < component->componentCount(); ++c) {
+        auto child = component->component(c);
+        if (!child->isImport()) {
+            auto childNames = unitsNamesUsedInHierarchy(child);
+            unitNames.insert(unitNames.end(), childNames.begin(), childNames.end());
+        }
+    }
+    return unitNames;
+}
+
 bool Importer::ImporterImpl::fetchComponent(const ComponentPtr &importComponent, const std::string &baseFile, History &history)
 {
     // Given the importComponent, check whether it has been resolved previously.  If so, return.
@@ -520,7 +537,7 @@ bool Importer::ImporterImpl::fetchComponent(const ComponentPtr &importComponent,
         }
 
         // Fetch any units needed by this component.
-        for (const auto &unitName : unitsNamesUsed(sourceComponent)) {
+        for (const auto &unitName : unitsNamesUsedInHierarchy(sourceComponent)) {
             auto units = sourceModel->units(unitName);
             if (units == nullptr) {
                 auto issue = Issue::IssueImpl::create();
@@ -544,6 +561,37 @@ bool Importer::ImporterImpl::fetchComponent(const ComponentPtr &importComponent,
     }
 
     history.pop_back();
+    return true;
+}
+
+bool Importer::ImporterImpl::fetchLocalUnitsChildren(const UnitsPtr &units, const std::string &baseFile, History &history, std::vector<UnitsPtr> &visited)
+{
+    // These units are defined here, but the units their children refer to might (transitively) be imported.
+    if (std::find(visited.begin(), visited.end(), units) != visited.end()) {
+        return true;
+    }
+    visited.push_back(units);
+    auto model = owningModel(units);
+    if (model == nullptr) {
+        return true;
+    }
+    for (size_t index = 0; index < units->unitCount(); ++index) {
+        std::string reference = units->unitAttributeReference(index);
+        if (isStandardUnitName(reference)) {
+            continue;
+        }
+        auto childUnits = model->units(reference);
+        if (childUnits == nullptr) {
+            continue;
+        }
+        if (childUnits->isImport()) {
+            if (!fetchUnits(childUnits, baseFile, history)) {
+                return false;
+            }
+        } else if (!fetchLocalUnitsChildren(childUnits, baseFile, history, visited)) {
+            return false;
+        }
+    }
     return true;
 }
 
@@ -619,6 +667,12 @@ bool Importer::ImporterImpl::fetchUnits(const UnitsPtr &importUnits, const std::
             }
             if (sourceUnit->isImport()) {
                 if (!fetchUnits(sourceUnit, newBase, history)) {
+                    return false;
+                }
+            } else {
+                // The child units are defined in the imported model, but their own children might be imported.
+                std::vector<UnitsPtr> visited = {sourceUnits};
+                if (!fetchLocalUnitsChildren(sourceUnit, newBase, history, visited)) {
                     return false;
                 }
             }
